@@ -87,7 +87,7 @@ func genUserGo(d *jDump, o userOpts) string {
 		prelude = prelude[:i] + "var _ = bufio.NewReader\nvar _ = os.Stdin\nvar _ = time.Second\n" + prelude[j+len("//MAIN-END"):]
 	}
 	sb.WriteString(prelude)
-	d.shared = o.shared
+	d.shared = o.shared || o.nilres // with `any` parameters two methods of one rule and arity would both match
 	d.anyres = o.nilres
 	d.typed = o.typed // prodClasses / goTermType (also used when the tables are loaded into the model) follow it
 	cls := prodClasses(d)
